@@ -120,7 +120,15 @@ def main():
     # ---- getPriorityOrDefault
     b = body_of(mpd, r"XalanMatchPatternData::getPriorityOrDefault\s*\(\s*\)\s*const", "getPriorityOrDefault")
     flat = re.sub(r"\s+", " ", b)
-    if not re.search(r"isNegativeInfinity\(templatePriority\) == true\s*\)\s*\{\s*return XPath::getMatchScoreValue\(m_priority\);\s*\}\s*else\s*\{\s*return templatePriority;", flat):
+    if re.search(r"isNegativeInfinity\(templatePriority\) == true\s*\)\s*\{\s*return XPath::getMatchScoreValue\(m_priority\);\s*\}\s*else\s*\{\s*return templatePriority;", flat):
+        neg_inf_sentinel = True
+    elif re.search(r"if \(m_template->hasPriority\(\) == false\) \{ return XPath::getMatchScoreValue\(m_priority\); \} else \{ return m_template->getPriority\(\); \}", flat):
+        et0 = re.sub(r"\s+", " ", read("src/xalanc/XSLT/ElemTemplate.cpp"))
+        if not re.search(r"m_priority = DoubleSupport::toDouble\(atts\.getValue\(i\), constructionContext\.getMemoryManager\(\)\); m_hasPriority = true;", et0) \
+                or not re.search(r"m_hasPriority\(false\)", et0):
+            die("ElemTemplate: m_hasPriority is not maintained as expected")
+        neg_inf_sentinel = False
+    else:
         die("getPriorityOrDefault has an unexpected shape")
 
     # ---- getTargetData
@@ -430,6 +438,9 @@ def main():
     L.append("/-- `XPath::stepPattern` tests a final child-axis step on the root node too, so `node()` accepts the root"
              " (false once the guard `nodeType != DOCUMENT_NODE` is in the source) -/")
     L.append("def nodeTestAcceptsRoot : Bool := %s" % ("true" if node_root else "false"))
+    L.append("/-- a priority attribute whose value is negative infinity is taken for 'no priority attribute' (unchanged code);"
+             " false with proposed/C10-priority-negative-overflow.diff (ElemTemplate::hasPriority) -/")
+    L.append("def negInfPriorityMeansNone : Bool := %s" % ("true" if neg_inf_sentinel else "false"))
     L.append("/-- a template invoked by xsl:call-template becomes the current template rule (unchanged code);"
              " false with proposed/C10-call-template-current-rule.diff -/")
     L.append("def callTemplateChangesCurrentRule : Bool := %s" % ("true" if call_changes else "false"))
